@@ -136,7 +136,11 @@ fn create_canon_stream_for_first_time(
     exec_ctx: &mut ExecutionCtx<'_>,
     trace_ctx: &mut TraceHandler,
 ) -> ExecutionResult<()> {
+    #[cfg(aquavm_verif)]
+    let hook_peer_id = peer_id.clone();
     let canon_stream = create_canon_stream(exec_ctx, peer_id);
+    #[cfg(aquavm_verif)]
+    crate::verif_hooks::emit(crate::verif_hooks::Event::CanonFirstTime { peer: hook_peer_id });
     let canon_result_cid = populate_unseen_cid_context(exec_ctx, &canon_stream)?;
     epilog(canon_stream, canon_result_cid, exec_ctx, trace_ctx)
 }
